@@ -86,7 +86,7 @@ type vfCacheRun struct {
 	h        uint64
 	// statistics
 	expiries, renewals, evictions, evictAfterExpiry, envelopeEarlyHalf, envelopeLateHalf int64
-	takeHits, takeLoads, takeFails                                                     int64
+	takeHits, takeLoads, takeFails                                                       int64
 }
 
 func (cr *vfCacheRun) op(s string) {
